@@ -154,7 +154,15 @@ def run_case(case, ses):
         # bounds on interface columns
         bc = cp.bound_cons(vs, iface_cols)
         if bc:
-            ses.oblige(name + '/iface-bounds', S + Sdefs, [z3.Not(z3.And(bc))], kind='projection-qf', twin=False)
+            rb, mb = ses.oblige(name + '/iface-bounds', S + Sdefs, [z3.Not(z3.And(bc))], kind='projection-qf', twin=False)
+            if rb == 'sat':
+                pt = {n: fval(mb, vs[c]) for n, c in cm.iface.items()}
+                data = dict(spec=spec, point={k: str(v) for k, v in pt.items()})
+                if replay(data):
+                    finding(ses, 'C02:%s:iface-bounds' % name, 'model %s: a point satisfying every robust constraint for all z violates '
+                            'the bounds the compiled program puts on the user\'s columns' % name, data, 'rsv.props.c02:replay')
+                else:
+                    raise HarnessError('interface-bounds counterexample does not reproduce: %s' % name)
     else:
         # ---- (c) optimum sandwich around the value reported by the real solver
         if reported is None:
@@ -323,6 +331,8 @@ def head_signs(ses, spec, cm, cp, vs, reported):
         res2, _ = ses.oblige(label + '/quadratic-reading', lin + quad, [vs[q[0]] < 0], kind='interface-reading-head-sign',
                              core=False, twin=False, timeout_ms=10000)
         if res2 == 'unsat':
+            if res == 'sat':
+                ses.dismiss(label, 'head sign follows from the quadratic reading of all cones')
             continue
         data = dict(spec=spec, grb_reading=True, cone=k, head=int(q[0]), eco=reported)
         if replay(data):
